@@ -26,6 +26,21 @@ INT_RANGE = {"i8": (-(1 << 7), (1 << 7) - 1), "i16": (-(1 << 15), (1 << 15) - 1)
              "u8": (0, (1 << 8) - 1), "u16": (0, (1 << 16) - 1), "u32": (0, (1 << 32) - 1), "u64": (0, (1 << 64) - 1), "usize": (0, (1 << 64) - 1)}
 
 
+_ASCII = {
+    "is_ascii": lambda c: c < 0x80,
+    "is_ascii_control": lambda c: c < 0x20 or c == 0x7f,
+    "is_ascii_digit": lambda c: 0x30 <= c <= 0x39,
+    "is_ascii_alphabetic": lambda c: 0x41 <= c <= 0x5a or 0x61 <= c <= 0x7a,
+    "is_ascii_uppercase": lambda c: 0x41 <= c <= 0x5a,
+    "is_ascii_lowercase": lambda c: 0x61 <= c <= 0x7a,
+    "is_ascii_alphanumeric": lambda c: 0x30 <= c <= 0x39 or 0x41 <= c <= 0x5a or 0x61 <= c <= 0x7a,
+    "is_ascii_graphic": lambda c: 0x21 <= c <= 0x7e,
+    "is_ascii_punctuation": lambda c: 0x21 <= c <= 0x2f or 0x3a <= c <= 0x40 or 0x5b <= c <= 0x60 or 0x7b <= c <= 0x7e,
+    "is_ascii_whitespace": lambda c: c in (0x20, 0x09, 0x0a, 0x0c, 0x0d),
+    "is_ascii_hexdigit": lambda c: 0x30 <= c <= 0x39 or 0x41 <= c <= 0x46 or 0x61 <= c <= 0x66,
+}
+
+
 def _tdiv(a, b):
     q = abs(a) // abs(b)
     return q if (a >= 0) == (b >= 0) else -q
@@ -169,6 +184,20 @@ class Model:
                 return int(v > 0 and v & (v - 1) == 0)
             if n in ("from", "into", "as_u32", "as_i32", "as_usize") and len(e[2]) == 1:
                 return self.ev(e[2][0], args)
+            if n in _ASCII and len(e[2]) == 1:
+                # u8 / char classification of the standard library, by its documented definition
+                x = e[2][0]
+                while isinstance(x, tuple) and x and (x[0] == "ref" or (x[0] == "proj" and all(q == "*" for q in x[2]))):
+                    x = x[1]
+                return int(_ASCII[n](self.ev(x, args)))
+            if n in ("to_ascii_lowercase", "to_ascii_uppercase") and len(e[2]) == 1:
+                x = e[2][0]
+                while isinstance(x, tuple) and x and (x[0] == "ref" or (x[0] == "proj" and all(q == "*" for q in x[2]))):
+                    x = x[1]
+                v = self.ev(x, args)
+                if n == "to_ascii_lowercase":
+                    return v + 32 if 65 <= v <= 90 else v
+                return v - 32 if 97 <= v <= 122 else v
             raise Shape("call to %s" % n)
         raise Shape("node `%s`" % show(e))
 
